@@ -1,6 +1,6 @@
 (* C11 - Best-effort steps fail softly and every failure is reported.  Property theorems only. *)
 From Coq Require Import List NArith Arith.
-From MDW Require Import SoftErr SoftErrProofs.
+From MDW Require Import SoftErr SoftErrProofs GenTypes Generated PlanProofs.
 Import ListNotations.
 Local Open Scope N_scope.
 
@@ -32,3 +32,16 @@ Print Assumptions C11_principal_reported.
 Theorem C11_dso_reported : forall f, f_dso f = true -> In [T_WriteDSODebugStreamFailed] (forest_paths (expected_tree f)).
 Proof. exact dso_reported. Qed.
 Print Assumptions C11_dso_reported.
+
+(* The plan regenerated from the CURRENT source: exactly the /proc and release file copies, the linker debug
+   data and the open-file list are wrapped as best-effort steps (a failure pushes a soft error and leaves an
+   unused directory entry), everything else is a hard step; nothing but the soft-error stream is written after
+   the threads have been resumed. *)
+Theorem C11_plan_soft_steps :
+  forallb (fun '(s, soft) => Bool.eqb soft (existsb (step_eqb s) expected_soft)) stream_plan = true.
+Proof. exact plan_soft_steps. Qed.
+Print Assumptions C11_plan_soft_steps.
+Theorem C11_plan_after_resume :
+  map fst (after (fun '(s, _) => step_eqb s St_resume_threads) stream_plan) = [St_soft_errors].
+Proof. exact plan_only_soft_errors_after_resume. Qed.
+Print Assumptions C11_plan_after_resume.
